@@ -642,4 +642,92 @@ example :
       demands 8 (attachedValue (registry classes) 7 1) = false ∧
       demands 7 (attachedValue [8] 7 1) = false := by decide
 
+/-! ### reachability through the namespace tree -/
+
+/-- which scopes are visited depends on the depths and the `wrap.lua` flags only: whatever a scope
+    contains (only classes, only namespaces, nothing at all) changes nothing for the scopes nested in
+    it or following it -/
+theorem visit_independent_of_content (f : ScopeD → ScopeD) : ∀ (nodes : List NsNode) (sk : Option Nat),
+    visit sk (nodes.map (fun n => { n with scope := f n.scope })) = (visit sk nodes).map f := by
+  intro nodes
+  induction nodes with
+  | nil => intro sk; simp [visit]
+  | cons n rest ih =>
+    intro sk
+    have body : ∀ (skip : Bool),
+        (if skip = true then visit sk (rest.map (fun n => { n with scope := f n.scope }))
+         else if n.wrapLua = true then f n.scope :: visit none (rest.map (fun n => { n with scope := f n.scope }))
+         else visit (some n.depth) (rest.map (fun n => { n with scope := f n.scope }))) =
+        (if skip = true then visit sk rest
+         else if n.wrapLua = true then n.scope :: visit none rest else visit (some n.depth) rest).map f := by
+      intro skip
+      cases skip
+      · by_cases h2 : n.wrapLua = true
+        · simp [h2, ih none]
+        · simp [h2, ih (some n.depth)]
+      · simp [ih sk]
+    cases sk with
+    | none => simpa [visit] using body false
+    | some d => simpa [visit] using body (decide (d < n.depth))
+
+/-- with every namespace switched on, every scope at every depth is visited, in pre-order -/
+theorem visit_all (nodes : List NsNode) (h : ∀ n ∈ nodes, n.wrapLua = true) :
+    visit none nodes = nodes.map (·.scope) := by
+  induction nodes with
+  | nil => simp [visit]
+  | cons n rest ih =>
+    have hn := h n (by simp)
+    simp only [visit, hn, if_true, List.map_cons]
+    simp
+    exact ih (fun m hm => h m (by simp [hm]))
+
+theorem mem_moduleRegs_fn (scopes : List ScopeD) (s : ScopeD) (hs : s ∈ scopes) (g : WFn)
+    (hg : g ∈ groups s.fns) : (g.lua, g.impl) ∈ moduleRegs scopes := by
+  simp only [moduleRegs, List.mem_flatMap]
+  refine ⟨s, hs, ?_⟩
+  simp only [scopeRegs, List.mem_append, List.mem_map]
+  exact Or.inr ⟨g, hg, rfl⟩
+
+theorem mem_moduleRegs_ctor (scopes : List ScopeD) (s : ScopeD) (hs : s ∈ scopes) (c : ClassD)
+    (hc : c ∈ s.classes) (g : WFn) (hg : g ∈ groups c.fns) (hk : g.kind = .ctor) :
+    (c.ctorName, g.impl) ∈ moduleRegs scopes := by
+  simp only [moduleRegs, List.mem_flatMap]
+  refine ⟨s, hs, ?_⟩
+  simp only [scopeRegs, List.mem_append, List.mem_flatMap]
+  refine Or.inl ⟨c, hc, ?_⟩
+  simp only [ctorRegs, List.mem_filterMap]
+  exact ⟨g, hg, by simp [hk]⟩
+
+/-- **registration completeness over the tree**: every function group and every constructor group of
+    every namespace at any depth (all switched on) is entered in the module table under its Lua name,
+    whatever else the enclosing and sibling scopes contain -/
+theorem every_function_registered (nodes : List NsNode) (h : ∀ n ∈ nodes, n.wrapLua = true)
+    (n : NsNode) (hn : n ∈ nodes) (g : WFn) (hg : g ∈ groups n.scope.fns) :
+    (g.lua, g.impl) ∈ moduleRegsTree nodes := by
+  unfold moduleRegsTree
+  rw [visit_all nodes h]
+  exact mem_moduleRegs_fn _ n.scope (List.mem_map.mpr ⟨n, hn, rfl⟩) g hg
+
+theorem every_constructor_registered (nodes : List NsNode) (h : ∀ n ∈ nodes, n.wrapLua = true)
+    (n : NsNode) (hn : n ∈ nodes) (c : ClassD) (hc : c ∈ n.scope.classes) (g : WFn)
+    (hg : g ∈ groups c.fns) (hk : g.kind = .ctor) :
+    (c.ctorName, g.impl) ∈ moduleRegsTree nodes ∧ c.mt ∈ registry (classesTree nodes) := by
+  unfold moduleRegsTree classesTree
+  rw [visit_all nodes h]
+  refine ⟨mem_moduleRegs_ctor _ n.scope (List.mem_map.mpr ⟨n, hn, rfl⟩) c hc g hg hk, ?_⟩
+  apply mem_registry
+  simp only [List.mem_flatMap, List.mem_map]
+  exact ⟨n.scope, ⟨n, hn, rfl⟩, hc⟩
+
+/-- library without functions > namespace with a class only > namespace with nothing > namespace with
+    a function; a switched-off namespace hides its whole subtree and nothing else -/
+example :
+    let f : WFn := ⟨1, 1, 10, .free⟩
+    let g : WFn := ⟨2, 2, 20, .free⟩
+    let c : ClassD := ⟨5, [⟨3, 3, 30, .ctor⟩], 7⟩
+    let tree (on : Bool) : List NsNode :=
+      [⟨0, true, ⟨[], []⟩⟩, ⟨1, true, ⟨[c], []⟩⟩, ⟨2, on, ⟨[], []⟩⟩, ⟨3, true, ⟨[], [f]⟩⟩, ⟨1, true, ⟨[], [g]⟩⟩]
+    moduleRegsTree (tree true) = [(5, 30), (1, 10), (2, 20)] ∧
+    moduleRegsTree (tree false) = [(5, 30), (2, 20)] := by decide
+
 end Shroud.LuaDispatch
